@@ -259,31 +259,40 @@ func (w *MarkdownWriter) writeTable(table *document.Table) error {
 
 	rows := table.Rows
 
-	// 写表头
-	if len(rows) > 0 {
-		headerRow := rows[0]
+	// 列数取各行单元格数的最大值：有合并单元格的行单元格较少，用空单元格补齐，
+	// 否则表头比数据行短时，GFM解析会丢弃数据行多出的单元格
+	cols := 0
+	for i := range rows {
+		if len(rows[i].Cells) > cols {
+			cols = len(rows[i].Cells)
+		}
+	}
+	writeRow := func(row *document.TableRow) {
 		w.output.WriteString("|")
-		for _, cell := range headerRow.Cells {
-			text := w.extractCellText(&cell)
+		for j := range row.Cells {
+			text := w.extractCellText(&row.Cells[j])
 			w.output.WriteString(" " + text + " |")
 		}
+		for j := len(row.Cells); j < cols; j++ {
+			w.output.WriteString("  |")
+		}
 		w.output.WriteString("\n")
+	}
+
+	// 写表头
+	if len(rows) > 0 {
+		writeRow(&rows[0])
 
 		// 写分隔行
 		w.output.WriteString("|")
-		for i := 0; i < len(headerRow.Cells); i++ {
+		for i := 0; i < cols; i++ {
 			w.output.WriteString("-----|")
 		}
 		w.output.WriteString("\n")
 
 		// 写数据行
 		for i := 1; i < len(rows); i++ {
-			w.output.WriteString("|")
-			for _, cell := range rows[i].Cells {
-				text := w.extractCellText(&cell)
-				w.output.WriteString(" " + text + " |")
-			}
-			w.output.WriteString("\n")
+			writeRow(&rows[i])
 		}
 	}
 
